@@ -383,7 +383,16 @@ fn load(text: &str, loader: Loader, env: &Env, k: u64, rng: &mut Rng) -> Result<
         Loader::File | Loader::FileBytes => {
             let gz = gzip(text, rng);
             std::fs::create_dir_all(&env.scratch).expect("harness: scratch directory");
-            let path = env.scratch.join(format!("c17-{k}.mps.gz"));
+            // load_file reads "the file at the given path as a gzipped MPS file", whatever it is called
+            let name = match rng.below(8) {
+                0 => format!("c17-{k}.mps.GZ"),
+                1 => format!("c17-{k}.mpsz"),
+                2 => format!("c17-{k}"),
+                3 => format!("c17-{k}.mps.gz.download"),
+                4 => format!("c17 {k} (copy).gz.txt"),
+                _ => format!("c17-{k}.mps.gz"),
+            };
+            let path = env.scratch.join(name);
             std::fs::write(&path, &gz).expect("harness: write scratch file");
             let r = if loader == Loader::File {
                 probe(|| conv(ommx::mps::load_file(&path)))
@@ -716,7 +725,7 @@ impl Property for C17 {
         }
     }
     fn rule(&self) -> &'static str {
-        "each case: one abstract LP/MIP model (<=6 columns, <=5 rows E/L/G with optional RHS and RANGES of both signs, objective row with a foreign name and an optional RHS entry = minus the objective constant, integer marker blocks, BOUNDS from UP LO FX MI PL FR BV LI UI in unambiguous combinations, coefficients k/1..k/8; one model in eight names some but not all rows OMMX_CONSTR_<n>, one in six with a ranged row R also declares a row called R_) rendered by the harness's own free-format MPS writer with random layout (3-/5-field lines, comments, blank lines, tabs, CRLF, OBJSENSE inline / own line / absent, several spellings of each number) and loaded through load_raw_reader, load_zipped_reader (each also over a reader that hands out 1-7 bytes per call), load_file or load_file_bytes (decoded again); about 75% well-formed files compared by name with the expected problem, 20% files with one injected defect that must be refused, 5% files with entries the reader is known to ignore (counted only). Non-trivial = well-formed file with >=1 column and (>=1 row or a non-constant objective); distinct = fingerprint of the rendered text."
+        "each case: one abstract LP/MIP model (<=6 columns, <=5 rows E/L/G with optional RHS and RANGES of both signs, objective row with a foreign name and an optional RHS entry = minus the objective constant, integer marker blocks, BOUNDS from UP LO FX MI PL FR BV LI UI in unambiguous combinations, coefficients k/1..k/8; one model in eight names some but not all rows OMMX_CONSTR_<n>, one in six with a ranged row R also declares a row called R_) rendered by the harness's own free-format MPS writer with random layout (3-/5-field lines, comments, blank lines, tabs, CRLF, OBJSENSE inline / own line / absent, several spellings of each number) and loaded through load_raw_reader, load_zipped_reader (each also over a reader that hands out 1-7 bytes per call), load_file or load_file_bytes (decoded again; file names with and without the usual .mps.gz ending); about 75% well-formed files compared by name with the expected problem, 20% files with one injected defect that must be refused, 5% files with entries the reader is known to ignore (counted only). Non-trivial = well-formed file with >=1 column and (>=1 row or a non-constant objective); distinct = fingerprint of the rendered text."
     }
     fn assumptions(&self) -> Vec<&'static str> {
         vec![
